@@ -246,17 +246,21 @@ func atomicVariant(mask int) string {
 	if mask&16 != 0 { // the struct inside list items becomes atomic
 		y = strings.Replace(y, "    - name: vv\n      type:\n        scalar: numeric\n    - name: st\n      type:\n        namedType: st\n", "    - name: vv\n      type:\n        scalar: numeric\n    - name: st\n      type:\n        namedType: st\n        elementRelationship: atomic\n", 1)
 	}
+	if mask&32 != 0 { // the structs held by the map become atomic (an atomic field one level
+		// deeper, under a sibling that sorts after "items")
+		y = strings.Replace(y, "        map:\n          elementType:\n            namedType: st\n", "        map:\n          elementType:\n            namedType: st\n            elementRelationship: atomic\n", 1)
+	}
 	return y
 }
 
 func genC20Reconcile(e *emitter, tier string, records []*fieldpath.Set) {
 	base := schemaMenu()[1]
-	n := 300
+	n := 600
 	if tier == "thorough" {
 		n = 6000
 	}
 	n /= shardCount
-	for mask := 0; mask < 32; mask++ {
+	for mask := 0; mask < 64; mask++ {
 		y := atomicVariant(mask)
 		p, err := typed.NewParser(typed.YAMLObject(y))
 		if err != nil {
@@ -266,7 +270,7 @@ func genC20Reconcile(e *emitter, tier string, records []*fieldpath.Set) {
 		e.line("(defschema " + quote(id) + " " + sexpSchema(&p.Schema) + ")")
 		tr := nameRef("root")
 		tv, _ := typed.AsTyped(value.NewValueInterface(nil), &p.Schema, tr)
-		for k := 0; k < n/32+1; k++ {
+		for k := 0; k < n/64+1; k++ {
 			var set *fieldpath.Set
 			if len(records) > 0 && e.rng.Intn(2) == 0 {
 				set = records[e.rng.Intn(len(records))]
